@@ -159,9 +159,76 @@ Proof. split; [apply ex_evaluated; vm_compute; reflexivity|]. vm_compute. reflex
 
 Example detect_goto_arity_nonvacuous :
   evaluated_at ex_fuel ex_wb None B 8 (trap_state (ev B 8)) (trap_bt (ev B 8)) /\
+  edges_read (f_ctx (trap_state (ev B 8))) (nth 8 flowB_rows (row_ TSend [] [] [])) = Ok [mkIE [] no_cond] /\
   compile ex_fuel (set_row ex_wb B 8 (set_list (nth 8 flowB_rows (row_ TSend [] [] [])) (map (fun s => [Lit s]) [S_ "a"; S_ "a"]))) None
   = Err EGotoArity.
-Proof. split; [apply ex_evaluated; vm_compute; reflexivity|]. vm_compute. reflexivity. Qed.
+Proof. split; [apply ex_evaluated; vm_compute; reflexivity|]. split; vm_compute; reflexivity. Qed.
+
+(* ---- a go_to row with a blank padding cell in a third edge column (the sheet is rectangular):
+        what the tool READS follows the tree at hand (regenerated probe), and so does the verdict.
+        Stated with [if padding_edges_dropped_at_read ...] so that the same script proves it on
+        both trees. *)
+Definition flowP_rows : list frow :=
+  [ (* 0 *) row_ TSend (L_ "a1") [e_ "start"] (L_ "hi");
+    (* 1 *) row_ TWait (L_ "w") [e_ ""] [];
+    (* 2 *) row_ TSend (L_ "a2") [ec_ "w" "yes" "Yes"] (L_ "good");
+    (* 3 *) row_ TSend (L_ "a3") [ec_ "w" "no" ""] (L_ "bad");
+    (* 4 *) with_list (row_ TGoto [] [e_ "a2"; e_ "a3"; e_ ""] []) [L_ "a1"] ].
+Definition P := S_ "flowP".
+Definition pad_wb : workbook :=
+  [ (S_ "content_index", SIndex [ix_ ICreateFlow ["flowP"]]); (P, SFlow flowP_rows) ].
+Definition pad_doc : doc := mkDoc [P] [] 0.
+Definition pad_row : frow := nth 4 flowP_rows (row_ TSend [] [] []).
+Definition evP := compile_trap ex_fuel pad_wb None P 4 false sel_eval.
+
+Example goto_padding_follows_the_tree :
+  compile ex_fuel pad_wb None = Ok pad_doc /\
+  evaluated_at ex_fuel pad_wb None P 4 (trap_state evP) (trap_bt evP) /\
+  List.length (r_edges pad_row) = 3 /\
+  edges_read (f_ctx (trap_state evP)) pad_row
+  = Ok (if padding_edges_dropped_at_read
+        then [mkIE (S_ "a2") no_cond; mkIE (S_ "a3") no_cond]
+        else [mkIE (S_ "a2") no_cond; mkIE (S_ "a3") no_cond; mkIE [] no_cond]) /\
+  (* two destinations: as many as the edges that carry something *)
+  compile ex_fuel (set_row pad_wb P 4 (set_list pad_row (map (fun s => [Lit s]) [S_ "a1"; S_ "a1"]))) None
+  = (if padding_edges_dropped_at_read then Ok pad_doc else Err EGotoArity) /\
+  (* three destinations: as many as the edge cells *)
+  compile ex_fuel (set_row pad_wb P 4 (set_list pad_row (map (fun s => [Lit s]) [S_ "a1"; S_ "a1"; S_ "a1"]))) None
+  = (if padding_edges_dropped_at_read then Err EGotoArity else Ok pad_doc) /\
+  (* four: too many on every tree (detect_goto_arity_too_many) *)
+  compile ex_fuel (set_row pad_wb P 4 (set_list pad_row (map (fun s => [Lit s]) [S_ "a1"; S_ "a1"; S_ "a1"; S_ "a1"]))) None
+  = Err EGotoArity.
+Proof.
+  split; [vm_compute; reflexivity|].
+  split; [apply (evaluated_intro ex_fuel pad_wb None P 4 evP eq_refl); vm_compute; reflexivity|].
+  repeat split; vm_compute; reflexivity.
+Qed.
+
+(* The statement C15 carried before /repo a05766f judged the arity on the edge cells as WRITTEN.
+   On a tree that drops padding at read it is false: the padded row above with two destinations
+   (2 <> 1, 2 <> 3 cells) compiles.  This is a fact about the tool (a padded go_to row is no longer
+   an arity fault), not a gap of the check: [detect_goto_arity] is the true statement. *)
+Example detect_goto_arity_as_written_refuted :
+  padding_edges_dropped_at_read = true ->
+  ~ (forall fuel wb dm d t0 p r s bt (dests : list str),
+       compile fuel wb dm = Ok d ->
+       nth_error (rows_of wb t0) p = Some r -> r_type r = TGoto ->
+       evaluated_at fuel wb dm t0 p s bt ->
+       List.length dests <> 1 -> List.length dests <> List.length (r_edges r) ->
+       compile fuel (set_row wb t0 p (set_list r (map (fun s => [Lit s]) dests))) dm = Err EGotoArity).
+Proof.
+  intros Hp H. unfold padding_edges_dropped_at_read in Hp.
+  first
+    [ discriminate Hp
+    | specialize (H ex_fuel pad_wb None pad_doc P 4 pad_row (trap_state evP) (trap_bt evP) [S_ "a1"; S_ "a1"]);
+      assert (Hc : compile ex_fuel pad_wb None = Ok pad_doc) by (vm_compute; reflexivity);
+      assert (He : evaluated_at ex_fuel pad_wb None P 4 (trap_state evP) (trap_bt evP))
+        by (apply (evaluated_intro ex_fuel pad_wb None P 4 evP eq_refl); vm_compute; reflexivity);
+      specialize (H Hc eq_refl eq_refl He);
+      assert (H1 : List.length [S_ "a1"; S_ "a1"] <> 1) by (cbn; discriminate);
+      assert (H2 : List.length [S_ "a1"; S_ "a1"] <> List.length (r_edges pad_row)) by (cbn; discriminate);
+      specialize (H H1 H2); vm_compute in H; discriminate H ].
+Qed.
 
 Example detect_edge_from_unknown_row_nonvacuous :
   evaluated_at ex_fuel ex_wb None B 7 (trap_state (ev B 7)) (trap_bt (ev B 7)) /\
